@@ -222,7 +222,7 @@ def subchecks(tier):
             prop,
             quick=600,
             thorough=30000,
-            floors={"two_axes_permuted": 0.3, "binding_constraint": 0.1, "shifted": 0.3, "sched_greedy": 0.12, "sched_rr": 0.12},
+            floors={"two_axes_permuted": 0.3, "binding_constraint": 0.1, "shifted": 0.3, "sched_greedy": 0.12, "sched_rr": 0.092},
         )
     ]
 
